@@ -425,6 +425,54 @@ fn gen_c19(out: &mut Out, rng: &mut Rng, thorough: bool) {
         let e = random_expr(rng, d, &leaves);
         out.req("random_deep", format!("fmt {}", e.to_line()));
     }
+    // the four query kinds, with nested joins
+    use crate::refdb::*;
+    let mut db = RefDb::default();
+    for (t, second) in [("Foo", "V"), ("Bar", "W"), ("Baz9", "V")] {
+        let mut k = ColDef::new("K", CT::I16);
+        k.key = true;
+        let mut v = ColDef::new(second, CT::Str(0));
+        v.nullable = true;
+        db.tables.insert(t.to_string(), RefTable { cols: vec![k, v], rows: vec![] });
+    }
+    let tables = ["Foo", "Bar", "Baz9"];
+    let nq = if thorough { 200_000 } else { 12_000 };
+    let lits = [V::Null, V::Int(0), V::Int(-7), V::Int(2147483647), V::Str("x".into()), V::Str("two words".into()), V::Str(String::new())];
+    for _ in 0..nq {
+        match rng.below(6) {
+            0 | 1 | 2 => {
+                let d = rng.below(4) as usize;
+                let sel = c12_tree(rng, d, &db, &tables);
+                out.req(&format!("query_select{d}"), format!("fmtq select {}", sel.toks()));
+            }
+            3 => {
+                let k = rng.below(4) as usize;
+                let mut parts = vec![k.to_string()];
+                for _ in 0..k {
+                    let n = 1 + rng.below(3) as usize;
+                    parts.push(n.to_string());
+                    for _ in 0..n {
+                        parts.push(rng.pick(&lits).tok());
+                    }
+                }
+                out.req("query_insert", format!("fmtq insert {} {}", hex_of_str(*rng.pick(&tables)), parts.join(" ")));
+            }
+            4 => {
+                let k = 1 + rng.below(3) as usize;
+                let mut parts = vec![k.to_string()];
+                for _ in 0..k {
+                    parts.push(hex_of_str(*rng.pick(&["K", "V", "W", "Col_2"])));
+                    parts.push(rng.pick(&lits).tok());
+                }
+                let cond = if rng.chance(1, 3) { "-".to_string() } else { random_expr(rng, 2, &c19_leaves()).to_line() };
+                out.req("query_update", format!("fmtq update {} {} {}", hex_of_str(*rng.pick(&tables)), parts.join(" "), cond));
+            }
+            _ => {
+                let cond = if rng.chance(1, 3) { "-".to_string() } else { random_expr(rng, 2, &c19_leaves()).to_line() };
+                out.req("query_delete", format!("fmtq delete {} {}", hex_of_str(*rng.pick(&tables)), cond));
+            }
+        }
+    }
 }
 
 // ------------------------------------------------------------------------------------
